@@ -14,7 +14,11 @@ import GB.Base.LTS
   `withCtx` returns either with the helper's result or — when the context is done — WITHOUT waiting for the helper
   (`sendRet true` / `recvRet true`: the helper is abandoned and keeps running). An abandoned `Recv` helper only
   touches the request side. An abandoned `Send` helper still writes to the ResponseWriter: that is the known
-  finding C18-D21; runs containing one are the excluded class (`St.abandoned`).
+  finding C18-D21 — as the code WAS (`Cfg.fx = false`: the original epilogue). The repaired code (`Cfg.fx = true`,
+  repo fix "an abandoned httpStream.Send never touches the response once the handler has taken it over") has a mutex
+  `mu` around everything `send / SetHeader / SetTrailer` do to the response and a flag `finished` that the handler sets
+  under `mu` (`finish()`, label `weFence`) right after Forward returned and before `writeError` / its own return: a
+  helper that already holds `mu` is waited for, one that comes later sees `finished` and does nothing.
 -/
 namespace GB.C10.HS
 open GB GB.C10
@@ -40,10 +44,12 @@ inductive Ev
   | fwdRet (e : Option RawErr)
   -- helper goroutines
   | hRecvDone          -- `s.recv`: body read and transcoded, `s.read = true`, `close(s.readCh)`
-  | hSendEnter         -- `s.send`: the second-response check, then `<-s.readCh`
-  | hSendMark          -- Content-Type header (first send only), `s.sent = true`
-  | hSendWrite         -- transcode and write: the first write puts status 200 and the headers on the wire
+  | hSendEnter         -- `s.send`: (original code: the second-response check, then) `<-s.readCh`
+  | hSendMark          -- (repaired code: `mu.Lock()`, the `finished` and second-response checks, then)
+                       -- Content-Type header (first send only), `s.sent = true`
+  | hSendWrite         -- transcode and write: the first write puts status 200 and the headers on the wire (then `mu.Unlock()`)
   -- handler goroutine
+  | weFence            -- repaired code only: `incoming.finish()` — `mu.Lock(); finished = true; mu.Unlock()`
   | weDecide           -- writeError: reads `w.writtenStatus` and `requestCanceled(r)`, picks what to write
   | weWrite            -- writeError: sets the headers, `WriteHeader`, `Write`
   | finish             -- ServeHTTP returns
@@ -79,12 +85,14 @@ inductive SendPc
   | pastRead (x : Enc)       -- `<-s.readCh` passed
   | marked (x : Enc)         -- content type set, `sent = true`
   | done (x : Enc)           -- `s.send` returned
+  | skipped (x : Enc)        -- repaired code: `s.send` found `finished` set and returned without touching anything
   deriving DecidableEq, Repr
 
 structure Cfg where
   t : RespTranscoder
   streaming : Bool          -- `incoming.respstream != nil` (server-streaming method)
   gone : Bool               -- `requestCanceled(r)` when writeError looks
+  fx : Bool := true         -- the repaired epilogue (mutex + `finish()`); `false` = the code as it was (D21)
 
 structure St where
   core : Core := {}
@@ -94,6 +102,10 @@ structure St where
   pendingSend : Bool := false           -- a `Send` call has not returned yet
   sendHelper : SendPc := .none
   abandoned : Bool := false             -- ghost: some `Send` returned without waiting for its helper (D21 class)
+  mu : Bool := false                    -- httpStream.mu is held (by the send helper)
+  fin : Bool := false                   -- httpStream.finished
+  returnedAt : Option Nat := none       -- ghost: number of writer steps when the handler returned
+  writes : Nat := 0                     -- ghost: number of steps that touched the ResponseWriter so far
   fwd : Option (Option RawErr) := none  -- Forward returned this
   decision : Option Written := none     -- writeError decided to write this
   rendered : Bool := false              -- writeError is through
@@ -139,6 +151,12 @@ def Core.render (c : Core) : Written → Core
     let c2 := { c1 with wire := some (c1.wire.getD { status := st, hdrs := c1.hdrs, ct := ct', nosniff := ns' }) }
     if b.isEmpty then c2 else { c2 with body := c2.body ++ [b] }
 
+/-- bookkeeping of a helper that finishes `s.send` with effect `x`: a `Send` that already returned without it
+    (abandoned) is entered into the log of completed calls now, an ordinary one when `Send` returns -/
+def St.helperDone (s : St) (x : Enc) : St :=
+  if s.pendingSend then { s with sendHelper := .done x }
+  else { s with sendHelper := .done x, log := s.log ++ [.send x] }
+
 def step (cfg : Cfg) (s : St) : Ev → Option St
   -- ── Incoming.Recv (called once, by Forward's main goroutine, before the response pump exists)
   | .recvCall =>
@@ -147,13 +165,13 @@ def step (cfg : Cfg) (s : St) : Ev → Option St
     if s.recvHelper = .running then some { s with recvHelper := .done, read := true } else none
   | .recvRet abandoned =>
     if s.recv = .pending ∧ (abandoned = true ∨ s.recvHelper = .done) then some { s with recv := .returned } else none
-  -- ── SetHeader / SetTrailer (atomic, response pump, no Send pending)
+  -- ── SetHeader / SetTrailer (atomic, response pump, no Send pending; repaired code: under `mu`)
   | .setHeader md =>
-    if s.recv = .returned ∧ s.pendingSend = false ∧ s.fwd.isNone then
-      some { s with core := s.core.setHeader md, log := s.log ++ [.setHeader md] } else none
+    if s.recv = .returned ∧ s.pendingSend = false ∧ s.fwd.isNone ∧ s.mu = false then
+      some { s with core := s.core.setHeader md, log := s.log ++ [.setHeader md], writes := s.writes + 1 } else none
   | .setTrailer md =>
-    if s.recv = .returned ∧ s.pendingSend = false ∧ s.fwd.isNone then
-      some { s with core := s.core.setTrailer md, log := s.log ++ [.setTrailer md] } else none
+    if s.recv = .returned ∧ s.pendingSend = false ∧ s.fwd.isNone ∧ s.mu = false then
+      some { s with core := s.core.setTrailer md, log := s.log ++ [.setTrailer md], writes := s.writes + 1 } else none
   -- ── Incoming.Send
   | .sendCall x =>
     if s.recv = .returned ∧ s.pendingSend = false ∧ s.fwd.isNone ∧ s.sendHelper = .none then
@@ -161,45 +179,58 @@ def step (cfg : Cfg) (s : St) : Ev → Option St
   | .hSendEnter =>
     match s.sendHelper with
     | .entered x =>
-      if s.core.sent && !cfg.streaming then some { s with sendHelper := .done x }   -- error before `<-readCh`
+      if !cfg.fx && s.core.sent && !cfg.streaming then some (s.helperDone x)   -- original: error before `<-readCh`
       else if s.read then some { s with sendHelper := .pastRead x }
-      else none                                                                     -- blocked on readCh
+      else none                                                                 -- blocked on readCh
     | _ => none
   | .hSendMark =>
     match s.sendHelper with
-    | .pastRead x => some { s with sendHelper := .marked x, core := s.core.mark cfg }
+    | .pastRead x =>
+      if cfg.fx then
+        if s.mu then none                                            -- mu.Lock() blocks
+        else if s.fin then some { s with sendHelper := .skipped x }   -- finished: touch nothing
+        else if s.core.sent && !cfg.streaming then some (s.helperDone x)   -- second response on a unary stream
+        else some { s with sendHelper := .marked x, core := s.core.mark cfg, mu := true, writes := s.writes + 1 }
+      else some { s with sendHelper := .marked x, core := s.core.mark cfg, writes := s.writes + 1 }
     | _ => none
   | .hSendWrite =>
     match s.sendHelper with
-    | .marked (.ok b) => some { s with sendHelper := .done (.ok b), core := s.core.write b }
-    | .marked (.fail e) => some { s with sendHelper := .done (.fail e) }
+    | .marked (.ok b) => some { (s.helperDone (.ok b)) with core := s.core.write b, mu := false, writes := s.writes + 1 }
+    | .marked (.fail e) => some { (s.helperDone (.fail e)) with mu := false }
     | _ => none
   | .sendRet abandoned =>
     if s.pendingSend = false then none
     else match abandoned, s.sendHelper with
       | false, .done x => some { s with pendingSend := false, sendHelper := .none, log := s.log ++ [.send x] }
+      | false, .skipped _ => none
       | true, .done _ => none                -- withCtx takes the helper's result when it is there
-      | true, _ => some { s with pendingSend := false, abandoned := true }   -- ctx done: the helper keeps running (D21)
+      | true, .skipped _ => none
+      | true, _ => some { s with pendingSend := false, abandoned := true }   -- ctx done: the helper keeps running
       | false, _ => none
   -- ── Forward returns: every call has returned (C02_cleanup: both pumps exited; main is not inside Recv)
   | .fwdRet e =>
     if s.fwd.isNone ∧ s.pendingSend = false ∧ s.recv ≠ .pending then some { s with fwd := some e } else none
-  -- ── the handler: `if err != nil { writeError(...) }`
+  -- ── the handler: (repaired: `incoming.finish()`;) `if err != nil { writeError(...) }`
+  | .weFence =>
+    if cfg.fx ∧ s.fwd.isSome ∧ s.mu = false ∧ s.fin = false then some { s with fin := true } else none
   | .weDecide =>
     match s.fwd with
     | some (some e) =>
-      if s.decision.isNone ∧ s.rendered = false then
+      if s.decision.isNone ∧ s.rendered = false ∧ (cfg.fx = true → s.fin = true) then
         some { s with decision := some (writeError s.core.wire.isSome cfg.gone (some cfg.t) e) }
       else none
     | _ => none
   | .weWrite =>
     match s.decision with
-    | some d => if s.rendered then none else some { s with core := s.core.render d, rendered := true }
+    | some d => if s.rendered then none
+                else some { s with core := s.core.render d, rendered := true, writes := s.writes + 1 }
     | none => none
   | .finish =>
-    match s.fwd with
-    | some none => if s.finished then none else some { s with finished := true }
-    | some (some _) => if s.rendered ∧ s.finished = false then some { s with finished := true } else none
+    if cfg.fx = true ∧ s.fin = false then none
+    else match s.fwd with
+    | some none => if s.finished then none else some { s with finished := true, returnedAt := some s.writes }
+    | some (some _) =>
+      if s.rendered ∧ s.finished = false then some { s with finished := true, returnedAt := some s.writes } else none
     | none => none
 
 /-- What the client gets once the handler returned (an untouched writer answers 200 with the live headers). -/
